@@ -19,8 +19,8 @@ def queries(tier):
     def q(name, defs):
         qs.append(Query(name, "C06/condvar.cpp", "harness_condvar", defs, SRC, unwind=8, cap_s=300, prelude=["rbtree", "nostring"]))
     for nq in range(0, mq + 1):
-        for mown, mqn in ((0, 0), (1, 0), (1, 1)):
-            tmos = [0] if nq == 0 else ([0, 1, (1 << nq) - 1] if tier == "quick" else list(range(1 << nq)))
+        for mown, mqn in (((0, 0), (1, 1)) if tier == "quick" else ((0, 0), (1, 0), (1, 1))):
+            tmos = [0] if nq == 0 else ([0, (1 << nq) - 1] if tier == "quick" else list(range(1 << nq)))
             for tmo in sorted(set(tmos)):
                 q(f"signal_q{nq}_tmo{tmo}_mown{mown}_mq{mqn}", dict(P_Q=nq, P_TMO=tmo, P_MOWN=mown, P_MQ=mqn, P_OP=0))
                 q(f"broadcast_q{nq}_tmo{tmo}_mown{mown}_mq{mqn}", dict(P_Q=nq, P_TMO=tmo, P_MOWN=mown, P_MQ=mqn, P_OP=1))
